@@ -6,7 +6,7 @@ import AbraModel.MiniVM
 
 Model: `Abra.Sched` (M4) for ANY thread step function; the host-call protocol on the concrete
 stack machine `Abra.MiniVM`.  `MainQueued r` = the main thread is in the run queue, unfinished, and
-no finished thread waits in a queue (true for `Runtime.new`, kept by every call that does not report
+no finished thread and no failed task waits in a queue (true for `Runtime.new`, kept by every call that does not report
 completion — part of `C11_done_iff_main_stopped`).
 -/
 namespace Abra.Sched
